@@ -184,6 +184,18 @@ def run_diag(case):
         reduced = copy.deepcopy(spec)
         reduced["constraints"] = [c for c in spec["constraints"]
                                   if c.get("id") in keep or c["kind"] in ("TaskLoadBuffer", "TaskUnloadBuffer")]
+        # a listed force-apply rule over an optional constraint that is NOT listed only constrains that constraint's
+        # applied flag: the unlisted one is replaced by a vacuous optional constraint under the same id
+        kept_ids = {c.get("id") for c in reduced["constraints"]}
+        for c in list(reduced["constraints"]):
+            if c["kind"] == "ForceApplyNOptionalConstraints":
+                for ref in c["constraints"]:
+                    if ref not in kept_ids:
+                        orig = next(x for x in spec["constraints"] if x.get("id") == ref)
+                        tname = orig.get("task") or spec["tasks"][0]["name"]
+                        reduced["constraints"].insert(0, {"id": ref, "name": orig.get("name"), "kind": "TaskStartAfter",
+                                                          "task": tname, "value": 0, "mode": "lax", "optional": True})
+                        kept_ids.add(ref)
         red = pr.run_solve(reduced, {"solver": {"max_time": 30}})
         acc.executions += 1
         if red["outcome"] not in ("sat", "unsat"):
